@@ -48,6 +48,7 @@ type (
 		Vars     []QVar
 		Body     Expr
 		Patterns [][]Expr // optional triggers: {a, b} {c}
+		Split    Expr     // optional proof hint: case split of the bound variable range
 	}
 	ESlice struct {
 		X      Expr
@@ -397,6 +398,10 @@ func (p *parser) primary() Expr {
 					}
 					p.expect("}")
 					q.Patterns = append(q.Patterns, grp)
+				}
+				if t := p.peek(); t.kind == "id" && t.s == "split" {
+					p.next()
+					q.Split = p.expr(0)
 				}
 				p.expect("::")
 				break
